@@ -226,7 +226,7 @@ PROP = Prop(
     workloads=[
         Workload("boundary", wl_boundary, quick=144, thorough=144),
         Workload("geometry", wl_geometry, quick=len(GEO_EST) * len(GEO_RATE), thorough=len(GEO_EST) * len(GEO_RATE) + 3000),
-        Workload("history", wl_history, quick=1200, thorough=100000),
+        Workload("history", wl_history, quick=1200, thorough=300000),
     ],
     assumptions=["an add is 'effective' iff force or the filter's own check() was false just before the call (decided by the harness before the call)",
                  "per-filter counts are read from the exported stream with an independent parser"],
